@@ -18,7 +18,13 @@ for mid, fil, old, new in items:
     if only and mid not in only:
         continue
     subprocess.run(['git', '-C', WT, 'checkout', '-q', '--', '.'], check=True)
-    for efile, eold, enew, eall in (old if fil is None else [(fil, old, new, False)]):
+    if fil == 'GEN':
+        import tempfile
+        g = tempfile.mkdtemp(prefix='opw_gen.', dir='/var/tmp')
+        subprocess.run([sys.executable, '/verif/tools/rename_locals.py', '/repo', g + '/r'] + list(new), check=True, capture_output=True, env=dict(os.environ, OPW_REPO='/repo'))
+        subprocess.run('cp -r %s/r/src/. %s/src/' % (g, WT), shell=True, check=True)
+        shutil.rmtree(g)
+    for efile, eold, enew, eall in ([] if fil == 'GEN' else old if fil is None else [(fil, old, new, False)]):
         p = os.path.join(WT, efile)
         s = open(p).read()
         occ = 1
